@@ -147,6 +147,16 @@ def check(ctx):
     exp.append(("ok", ["`define", "P", "1", "still_p", "1", "still_pre"]))
     pcs.append(ppx.PC({"top.sv": 'a\n`include "m.svh"\n`Q z\n', "m.svh": '`define Q from_m\n`include "empty.svh"\n`include "nl.svh"\n', "empty.svh": "", "nl.svh": "\n"}, tag="flow"))
     exp.append(("ok", ["a", "`define", "Q", "from_m", "from_m", "z"]))
+    # names with one, two and three leading ".." components, found through an include path, a same-named decoy below it
+    for ups, hit in ((1, "p/q/hdr.svh"), (2, "p/hdr.svh"), (3, "hdr3.svh")):
+        name = "../" * ups + ("hdr3.svh" if ups == 3 else "hdr.svh")
+        files = {"top.sv": 'a\n`include "%s"\nz\n' % name, "p/q/r/hdr.svh": "decoy_r\n", "p/q/r/hdr3.svh": "decoy_r3\n", hit: "target_%d\n" % ups}
+        if ups == 1:
+            files["p/hdr.svh"] = "decoy_p\n"
+        pcs.append(ppx.PC(files, incdirs=["p/q/r"], tag="dotdot")); exp.append(("ok", ["a", "target_%d" % ups, "z"]))
+        pcs.append(ppx.PC({"top.sv": 'a\n`define H "%s"\n`include `H\nz\n' % name, "p/q/r/hdr.svh": "decoy_r\n", "p/q/r/hdr3.svh": "decoy_r3\n", hit: "target_%d\n" % ups},
+                          incdirs=["p/q/r"], tag="dotdot"))
+        exp.append(("ok", ["a", "`define", "H", '"%s"' % name, "target_%d" % ups, "z"]))
     # faults
     pcs.append(ppx.PC({"top.sv": 'a\n`include "bad.svh"\n'}, bad=["bad.svh"], tag="fault")); exp.append(("err", 1, "ReadUtf8", "bad.svh"))
     pcs.append(ppx.PC({"top.sv": 'a\n`include "m.svh"\n', "m.svh": '`include "bad.svh"\n'}, bad=["bad.svh"], tag="fault")); exp.append(("err", 2, "ReadUtf8", "bad.svh"))
@@ -161,7 +171,14 @@ def check(ctx):
         if t.startswith("`define"):
             e = ["`define", "M", "`include", '"nofile.svh"', "a", "b"]
         exp.append(("ok", e))
-    cases, res, diffs = ppx.correspond(ctx, "preprocess (include graphs) vs PP/Eval.v", pcs, "c10")
+    # names with ".." need a real file system (the model's is a finite map from spellings to files): implementation only
+    dd = [i for i, pc in enumerate(pcs) if pc.tag == "dotdot"]
+    rest = [i for i in range(len(pcs)) if i not in set(dd)]
+    cases, res, diffs = ppx.correspond(ctx, "preprocess (include graphs) vs PP/Eval.v", [pcs[i] for i in rest], "c10")
+    dcases, dimpl = ppx.run_impl([pcs[i] for i in dd], "c10dd", timeout=120)
+    ctx.corr_cases += len(dcases)
+    order = rest + dd
+    pcs, exp, res = [pcs[i] for i in order], [exp[i] for i in order], list(res) + [ppx.Res(dimpl.get(c.id)) for c in dcases]
     bad = None
     for pc, e, rr in zip(pcs, exp, res):
         if rr.crash:
